@@ -107,6 +107,19 @@ class AxisChecker:
                     sl.upper is None and const_int(sl.step) == -1:
                 o = self.vec_order(node.value)
                 return o[::-1] if o in ("XYZ", "ZYX") else None
+            # any constant slice of a known order: apply it to the letters
+            # (a.shape[:0:-1] of a CZYX array is XYZ)
+            if isinstance(sl, ast.Slice) and sl.step is not None:
+                o = self.vec_order(node.value)
+                parts_ = [None if x is None else const_int(x)
+                          for x in (sl.lower, sl.upper, sl.step)]
+                if o and all(x is None or p_ is not None for x, p_ in zip(
+                        (sl.lower, sl.upper, sl.step), parts_)):
+                    try:
+                        r = o[slice(*parts_)]
+                    except Exception:
+                        r = None
+                    return r or None
             # prefix of a longer shape: a.shape[:3], a.shape[1:]
             if isinstance(sl, ast.Slice) and sl.step is None:
                 o = self.vec_order(node.value)
@@ -548,9 +561,40 @@ class AxisChecker:
             return
         sl = node.slice
         slots = sl.elts if isinstance(sl, ast.Tuple) else [sl]
-        if any(isinstance(s, ast.Constant) and s.value is Ellipsis
-               for s in slots):
-            return
+        ell = [k for k, s in enumerate(slots)
+               if isinstance(s, ast.Constant) and s.value is Ellipsis]
+        if ell:
+            # slots after `...` are aligned to the END of the layout
+            if len(ell) != 1:
+                return
+            after = slots[ell[0] + 1:]
+            for j, s in enumerate(after):
+                pos = len(lay) - len(after) + j
+                if pos < 0:
+                    continue
+                r = self.role(s, quiet=True)
+                if not r or r == lay[pos]:
+                    continue
+                # rank-dependent code may be guarded by a test on the rank
+                from .core import enclosing_stmt_map
+                from .dataflow import control_names
+                st = enclosing_stmt_map(self.fn.node).get(id(node))
+                guarded = False
+                if st is not None:
+                    ctl = control_names(self.fn.node, st)
+                    guarded = isinstance(node.value, ast.Name) and \
+                        node.value.id in ctl
+                self.n += 1
+                self.col.add(
+                    self.rule + ".slot", self.fn, norm(node)[:90],
+                    guarded, "rank-dependent indexing under a test on the "
+                    "array" if guarded else
+                    "`...` aligns `%s` with the last axis of `%s` (layout %s: "
+                    "axis %s), but it is a %s-axis quantity: for arrays that "
+                    "have the %s axis the wrong axis is sliced"
+                    % (norm(s)[:40], norm(node.value), lay, lay[pos], r,
+                       lay[pos]), node=node, undecided=guarded)
+            slots = slots[:ell[0]]
         for k, s in enumerate(slots):
             if k >= len(lay):
                 break
@@ -585,6 +629,24 @@ class AxisChecker:
                 pr, ar = seed_role(p), self.role(a, quiet=True)
                 if pr and ar:
                     self.ob("arg", a, [pr, ar])
+            # parameters that the callee pairs element by element
+            # (zip(p, q) / p[i] with q[i]) must arrive in one axis order
+            for i, j in _paired_params(callee):
+                if i < len(node.args) and j < len(node.args):
+                    oi = self.vec_order(node.args[i])
+                    oj = self.vec_order(node.args[j])
+                    if oi and oj and len(oi) == len(oj):
+                        self.n += 1
+                        ok = oi == oj
+                        self.col.add(
+                            self.rule + ".zip-args", self.fn,
+                            norm(node)[:90], ok, "" if ok else
+                            "%s pairs its parameters %s and %s element by "
+                            "element, but this call passes a sequence in %s "
+                            "order and one in %s order: per-axis values are "
+                            "combined with the wrong axis unless sizes are "
+                            "cubic" % (callee.qualname, params[i], params[j],
+                                       oi, oj), node=node)
         # zip / reshape handled elsewhere; np.ndindex via loops
         if nm == "zip" and id(node) not in self._zip_seen:
             orders = [self.vec_order(a) for a in node.args]
@@ -608,6 +670,27 @@ class AxisChecker:
                     t = ast.Tuple(elts=list(args), ctx=ast.Load())
                     ast.copy_location(t, node)
                     self._tuple(t)
+
+
+_PAIRED_CACHE = {}
+
+
+def _paired_params(callee):
+    """[(i, j)] positions of parameters that the function zips together."""
+    key = callee.key
+    if key in _PAIRED_CACHE:
+        return _PAIRED_CACHE[key]
+    params = callee.params
+    out = set()
+    for n in walk_local(callee.node):
+        if isinstance(n, ast.Call) and call_name(n) == "zip":
+            idx = [params.index(a.id) for a in n.args
+                   if isinstance(a, ast.Name) and a.id in params]
+            for a in range(len(idx)):
+                for b in range(a + 1, len(idx)):
+                    out.add((idx[a], idx[b]))
+    _PAIRED_CACHE[key] = sorted(out)
+    return _PAIRED_CACHE[key]
 
 
 def check_modules(repo, col, shorts, rule="E-AXIS"):
